@@ -12,4 +12,5 @@ CONSTANTS
  Dev_ParentSetFirst = FALSE
  Dev_RecurseDropsArch = FALSE
  Dev_LookupUidFirst = FALSE
+ Dev_UidCollision = FALSE
  MaxDel = 1
